@@ -818,7 +818,9 @@ pub fn c14(tier: &str, acc: &mut Acc, bounds: &mut Vec<String>) {
                         for r in 0..rounds {
                             let hi = (r + t) % hays.len();
                             for (mi, &m) in ms.iter().enumerate() {
-                                if b.auto.run(m, &hays[hi]) != expected[hi][mi] {
+                                let r = catch_unwind(AssertUnwindSafe(|| b.auto.run(m, &hays[hi])));
+                                if r.map_or(true, |x| x != expected[hi][mi]) {
+                                    let _ = util::take_last_panic();
                                     bad.store(true, std::sync::atomic::Ordering::Relaxed);
                                     return;
                                 }
